@@ -12,6 +12,7 @@ package verifsim
 
 import (
 	"encoding/json"
+	"strings"
 	"fmt"
 	"os"
 	"runtime"
@@ -80,11 +81,29 @@ func Bubble(t *testing.T, f func(t *testing.T)) {
 	stall.timer = time.AfterFunc(StallLimit, func() { stalled(n) })
 	tm := stall.timer
 	stall.mu.Unlock()
+	defer func() {
+		// "deadlock: main bubble goroutine has exited but blocked goroutines remain": goroutines that never end keep the
+		// bubble from ending (and kill the test process, with everything the driver found). If the driver has already
+		// recorded a violation (or armed a verdict), that is what gets reported; otherwise the panic goes on (exit 2).
+		if r := recover(); r != nil {
+			stall.mu.Lock()
+			has := stall.verdict != nil || stall.armed != nil
+			stall.mu.Unlock()
+			if msg := fmt.Sprint(r); has && strings.Contains(msg, "deadlock:") {
+				stalledBecause(n, "the bubble could not end: "+msg)
+			}
+			panic(r)
+		}
+	}()
 	synctest.Test(t, f)
 	tm.Stop()
 }
 
 func stalled(n int) {
+	stalledBecause(n, fmt.Sprintf("did not end within %v of real time", StallLimit))
+}
+
+func stalledBecause(n int, why string) {
 	stall.mu.Lock()
 	cur := stall.n
 	ws := append([]func(){}, stall.writers...)
@@ -99,7 +118,7 @@ func stalled(n int) {
 	buf := make([]byte, 64<<20)
 	buf = buf[:runtime.Stack(buf, true)]
 	if dir := os.Getenv("VERIF_OUT"); dir != "" {
-		os.WriteFile(dir+"/stall.txt", append([]byte(fmt.Sprintf("scenario #%d did not end within %v of real time\n\n", n, StallLimit)), buf...), 0o644)
+		os.WriteFile(dir+"/stall.txt", append([]byte(fmt.Sprintf("scenario #%d %s\n\n", n, why)), buf...), 0o644)
 	}
 	if dir := os.Getenv("VERIF_OUT"); dir != "" && verdict != nil {
 		b, _ := json.Marshal(map[string]string{"sig": verdict[0], "desc": verdict[1]})
